@@ -70,6 +70,7 @@ NEST_PARENTS = ['group_by', 'roll22', 'roll12', 'roll21', 'split', 'tee']
 
 def units(tier):
     out = []
+    out.append({'fam': 'sharedlist'})
     d = 7 if tier == 'quick' else 8
     n = 32 if tier == 'quick' else 128
     for sh in range(n):
@@ -87,6 +88,9 @@ def units(tier):
 
 
 def cases(unit):
+    if unit.get('fam') == 'sharedlist':
+        yield {'fam': 'sharedlist'}
+        return
     fam = unit['fam']
     if fam == 'raw':
         sh, n = unit['shard']
@@ -232,6 +236,13 @@ def run_probe(case, acc):
 
 
 def run_case(case, acc):
+    if case.get('fam') == 'sharedlist':
+        # one list object used as the pipeline of two operators
+        import rxsci as rs
+        d = harness.shared_list_problem(lambda L: rs.ops.tee_map(L, [rs.ops.count()], join='merge'), lambda L: rs.ops.tee_map([rs.ops.map(lambda x: -x)], L, join='zip'), [0, 1, 2])
+        acc.evals += 3
+        acc.count('shared_pipeline_lists')
+        return [viol('sharedlist', 'zip', 'branch-list-shared-by-two-operators', d)] if d else []
     fam = case['fam']
     if fam in ('longkey', 'reuse_op', 'manykeys', 'describe'):
         return run_probe(case, acc)
